@@ -6,18 +6,26 @@ PROP = {
              "property statement as a Go oracle: empty pool, exhaustive n=1,2 over alive x seqno{0,1,2,3,2^32-2,2^32-1} x "
              "rtt{1,2,3} x 3 strategies x every previous choice, sampled n=3,4 from the grid, up to 8 connections with heads "
              "around arbitrary newest heads and arbitrary/equal/negative RTTs; thorough tier: the whole grid n=1..4 x both "
-             "strategies x every previous choice (c13.ubx). Wait list: walks of coarse operations (sethead, notify, tick, "
+             "strategies x every previous choice (c13.ubx); pools built through the real addConnection (c13.add): every arrival "
+             "order of every subset of 4 configured servers (64 orders) x both strategies x sampled alive/seqno/RTT, and up to 8 of "
+             "12 sparse ids in random arrival order: pool order as listed by Status(), bestConn after initialisation and the "
+             "choice of updateBest vs the model; oracles: Status() is in configuration order, the choice is the property's choice "
+             "on the configuration-ordered pool. Wait list: walks of coarse operations (sethead, notify, tick, "
              "conn alive/rtt, sub, recv, unsub, state) replayed step by step, each step in its own goroutine with a "
              "blocked-after-250ms observation, on the real subscribe/notifySubscribers/unsubscribe/updateBest/SetMasterHead "
              "with real connection objects wrapped for IsOK/RTT, vs the LTS model: hand-written scenarios incl. the schedules "
              "of the repaired deadlocks, bursts against the 10-slot buffer, best-connection switches with an unconsumed head, "
-             "random interleavings (1..3 connections, 1..3 waiters, 3 strategies, full channels, one blocked publisher), and the "
+             "random interleavings (1..3 connections, 1..3 waiters, 3 strategies, full channels, one blocked publisher), several "
+             "updates of several connections queued while Run is not scheduled and then handled by the REAL Run loop (op 'drain: "
+             "p.Run until the buffer is empty: best connection's update before/after the same or a newer head of another "
+             "connection, a full buffer with a publisher waiting for room), and the "
              "first waiter of a pool's lifetime kept waiting while callers satisfied at once subscribe, receive and run their "
              "unsubscribe with the id they were given (fresh pool, head 0..3, 1..2 such callers) before its head arrives. The "
              "real WaitMasterchainSeqno under the real Run loop (c13.wait): result nil/timeout/cancel vs model, latency oracle "
              "(success early, timeout not before and not long after the deadline), also with two concurrent callers (first waiter "
              "waiting + caller satisfied at once + head arrives; oracle: each caller's verdict is what the best connection's heads "
-             "demand). Regression oracles for the four repaired defects and a 1.5 s stress under the real Run loop (publisher + 8 "
+             "demand) and with all heads queued before the Run goroutine is started (batch shape; oracle wait-lost-head: a caller "
+             "whose target the best connection reached must not time out). Regression oracles for the four repaired defects and a 1.5 s stress under the real Run loop (publisher + 8 "
              "callers with 20 ms timeouts + updateBest every 20 ms, watchdog 5 s, key pool-stuck) (c13.repro). Source obligations "
              "(C13_gen.v over the go/ast translation of liteapi/pool): no method calls, while holding its receiver's lock, a method "
              "that takes that lock (transitively); lock kinds and call structure are those of the model; the only blocking send "
@@ -33,21 +41,27 @@ PROP = {
                     "a registered waiter stays registered until then and gets every notified head; the pool lock is modelled with "
                     "Go's writer preference and two-step write acquisition: no goroutine asks for p.mu while holding it, the holder "
                     "always has an enabled step, the lock is freed and the announced writer served by the pool's own moves, Run "
-                    "always gets back to its select, a SetMasterHead waiting for buffer space completes; the variant of "
+                    "always gets back to its select, a SetMasterHead waiting for buffer space completes; Run handles the queued "
+                    "updates one by one in FIFO order (along every run: queued ++ published = taken ++ still queued; the taken update "
+                    "is the one notified) and the design that merges queued updates into the newest head is refuted (a registered "
+                    "waiter whose target the best connection reached is sent nothing); addConnection: after every arrival sequence the "
+                    "pool is the sorted permutation of the arrivals (sort-before-append refuted); the variant of "
                     "notifySubscribers that re-acquires RLock is refuted (permanent deadlock). coq/Properties/C13_gen.v re-checks "
                     "the absence of lock re-acquisition and of blocking sends under a lock on today's source."),
     'assumptions': ["the LTS abstracts the Go scheduler: atomic steps are critical sections without blocking operations and without lock acquisitions (both re-checked syntactically on the source by C13_gen.v); sync.RWMutex is modelled as writer-preferring with one announced writer at a time",
                     "updateBest reads the heads one by one, the model at once (the comparison is monotone in a connection's head)",
                     "'the best connection reports a head' = Run handles an update whose connection id equals bestConn's; a switch of bestConn does not wake waiters (observation)",
                     "pools without connections (subscribe dereferences nil bestConn) are outside the quantifier (1..4 connections); proved impossible with >= 1 connection",
-                    "wall-clock time, data races (BestArchiveClient reads p.conns unlocked) and addConnection after start are not modelled"],
+                    "connection ids are pairwise different (indices of the servers in the configuration), so sort.Slice's result is determined; addConnection is modelled for initialisation (before waiters exist), not interleaved with the wait-list protocol",
+                    "wall-clock time and data races (BestArchiveClient reads p.conns unlocked) are not modelled"],
 }
 
 META = {
     'text': ("Machine-checked proof (Coq) for a model of the repaired connection pool. Selection: for every pool (any number of "
              "connections), both strategies and every previous choice updateBest returns the alive connection at most one block "
              "behind the newest head with minimal round-trip time, first among equals (best-ping) / first in configuration order "
-             "(first-working), else the previous choice; no overflow at seqno 2^32-1. Wait list, as a labelled transition system "
+             "(first-working), else the previous choice; no overflow at seqno 2^32-1; addConnection keeps the pool in configuration "
+             "(id) order for every arrival order, so first-working picks the smallest configuration index among the eligible. Wait list, as a labelled transition system "
              "over all interleavings of head updates, Run-loop steps, subscriptions, receives, timeouts and unsubscriptions: "
              "success iff a head >= target of the best connection was received (immediately at subscribe if already there), "
              "no sufficient head is lost by the non-blocking keep-the-newer notification, every notification reaches every "
